@@ -9,6 +9,7 @@ import (
 	"io"
 	"iter"
 	"net"
+	"net/url"
 	"strings"
 	"sync"
 	"time"
@@ -141,6 +142,9 @@ func (d *Dialer[T]) Dial(ctx context.Context, network, addr string, tc *tls.Conf
 			var host string
 			if res, ok := resolver.(*transportResolver); ok {
 				host = res.host
+			} else if u, err := url.Parse(a); err == nil && u.Scheme != "" && u.Host != "" {
+				// a is a URI, e.g. https://example.com:8443
+				host = u.Hostname()
 			} else {
 				var err error
 				if host, _, err = net.SplitHostPort(a); err != nil {
